@@ -670,6 +670,31 @@ func c16CheckReuse(r *rt.Result, l *c16Local, cs c16Case) {
 			r.Violate("panic/"+pi.Frame+"/reuse", fmt.Sprintf("(%d,%d) arithmetic on the result of Int(), then String(): panicked: %s", cs.P, sc, pi.Value), cs)
 			return
 		}
+		// a value copy of the decimal parses another numeral (a template
+		// decimal copied per row, say): what SetString stores is the copy's
+		// own number - the original keeps its value
+		if si%2 == 1 {
+			var cpText, orig string
+			var cpErr error
+			other := new(big.Int).Add(new(big.Int).Abs(u), big.NewInt(7))
+			if other.Cmp(c16Pow[minP(d.Precision, 38)]) >= 0 {
+				other.SetInt64(7)
+			}
+			if pi := rt.Catch(func() {
+				cp := *d
+				cpErr = cp.SetString(c16Expand(other, sc))
+				cpText = cp.String()
+				orig = d.String()
+			}); pi != nil {
+				r.Violate("panic/"+pi.Frame+"/reuse", fmt.Sprintf("(%d,%d) SetString on a value copy: panicked: %s", cs.P, sc, pi.Value), cs)
+				return
+			}
+			l.ctr["reuse_value_copy_parses"]++
+			if cpErr == nil && (cpText != c16Expand(other, sc) || orig != c16Expand(u, sc)) {
+				r.Violate("reuse/setstring-on-a-value-copy-changes-the-original", fmt.Sprintf("(%d,%d) the decimal holds %s; a value copy of it parsed %q and prints %q; the original now prints %q (expansion %q)", cs.P, sc, u, c16Expand(other, sc), cpText, orig, c16Expand(u, sc)), cs)
+				return
+			}
+		}
 		if want := c16Expand(u, sc); again != want || back3.Cmp(u) != 0 {
 			r.Violate("reuse/int-result-shares-the-decimals-number", fmt.Sprintf("(%d,%d) the decimal holds %s; after in-place arithmetic on the big.Int that Int() returned it prints %q and Int() = %s (expansion %q)", cs.P, sc, u, again, back3, want), cs)
 			return
@@ -832,6 +857,10 @@ func c16Spellings(p, s int, u *big.Int) []c16Gen {
 		if fz != "" {
 			g = append(g, c16Gen{sign + "." + fz, "no-integer-part"}, c16Gen{sign + "." + full, "no-integer-part-padded"})
 		}
+	}
+	// many redundant leading zeros (fixed-size scratch buffers)
+	for _, nz := range []int{40, 74, 79, 130} {
+		g = append(g, c16Gen{sign + c16Zeros(nz) + abs, fmt.Sprintf("leading-zeros-%d", nz)})
 	}
 	if sign == "" {
 		g = append(g, c16Gen{"+" + canon, "plus-sign"})
@@ -1210,4 +1239,14 @@ func c16DecorationAccepted(shape string) bool {
 		}
 	})
 	return c16DecoOK[shape]
+}
+
+func minP(a, b int) int {
+	if a < b {
+		return a
+	}
+	if a < 0 {
+		return 0
+	}
+	return b
 }
